@@ -360,6 +360,7 @@ class VQueue:
         self._items.append(item)
         if S.queue_hook:
             S.queue_hook("put", self, item)
+        S.emit("qput", item=item if isinstance(item, str) else repr(item)[:80])     # shim-level observation (orders concurrent submissions)
         S.yield_("Queue.put.after")
 
     def put_nowait(self, item):
